@@ -267,6 +267,14 @@ fn spending(cfg: &Cfg, rep: &mut Report, h: u64, steps: usize, to_bound: bool) {
     // the FULL list of authorized (ledger, amount) since the installation — never pruned
     let mut authorized: Vec<(u32, i128)> = vec![];
     rep.op(format!("deploy spending-limit policy ledger={}", w.ledger()));
+    // a bystander: another account under the SAME rule id, and the same account under ANOTHER rule id,
+    // both installed once and never used - whatever happens above must not show in their data
+    let account_b = w.account();
+    let r_other = rule(e, 8, &[s1.clone()]);
+    let by_params = SpendingLimitAccountParams { spending_limit: 777, period_ledgers: 9 };
+    let by1 = call(&w, &policy, &account_b, "install", args!(e, by_params.clone(), r.clone(), account_b.clone()), true);
+    let by2 = call(&w, &policy, &account, "install", args!(e, by_params.clone(), r_other.clone(), account.clone()), true);
+    let bystanders_ok = by1.is_ok() && by2.is_ok();
     let data = |w: &World| -> Option<SpendingLimitData> { invoke(&w.env, &policy, "get_spending_limit_data", args!(&w.env, 7u32, account.clone())).ok() };
     for step in 0..steps {
         let cur = w.ledger();
@@ -394,6 +402,13 @@ fn spending(cfg: &Cfg, rep: &mut Report, h: u64, steps: usize, to_bound: bool) {
                     rep.check("res", before == after, "C14/res/spending/enforce/rejected-attempt-left-a-trace", || format!("rejected enforce changed the policy data: {before:?} -> {after:?}"));
                 }
             }
+        }
+    }
+    if bystanders_ok {
+        for (who, rid, label) in [(&account_b, 7u32, "other account, same rule id"), (&account, 8u32, "same account, other rule id")] {
+            let d: Option<SpendingLimitData> = invoke(e, &policy, "get_spending_limit_data", args!(e, rid, who.clone())).ok();
+            let ok = d.as_ref().map_or(false, |d| d.spending_limit == 777 && d.period_ledgers == 9 && d.spending_history.is_empty() && d.cached_total_spent == 0);
+            rep.check("ref", ok, "C14/ref/spending/bystander-installation-changed", || format!("the installation of the {label} (limit 777, period 9, never used) now reads {d:?}"));
         }
     }
     rep.end_history();
